@@ -19,3 +19,181 @@ def productions(path=PYTHON_RS):
 
 def lhs(prod):
     return prod.split(' = ', 1)[0]
+
+
+def _split_rhs(r):
+    out, cur, d, q, i = [], '', 0, False, 0
+    while i < len(r):
+        c = r[i]
+        if c == '"':
+            q = not q
+        if not q:
+            if c in '<(':
+                d += 1
+            if c in '>)':
+                d -= 1
+            if c == ',' and d == 0 and r[i + 1:i + 2] == ' ':
+                out.append(cur.strip())
+                cur = ''
+                i += 2
+                continue
+        cur += c
+        i += 1
+    if cur.strip():
+        out.append(cur.strip())
+    return out
+
+
+def live_productions(prods=None):
+    """indices of the productions whose left-hand side is reachable from the start symbol through right-hand sides as compiled (LALRPOP lists the
+    productions of inlined macro non-terminals such as ","? too, but nothing refers to them any more, so they can never be reduced)"""
+    prods = prods or productions()
+    left = {i: lhs(p) for i, p in prods.items()}
+    right = {i: (_split_rhs(p.split(' = ', 1)[1]) if ' = ' in p else []) for i, p in prods.items()}
+    nts = set(left.values())
+    live = {n for n in nts if n.startswith('__') or n == 'Top'}
+    changed = True
+    while changed:
+        changed = False
+        for i in prods:
+            if left[i] in live:
+                for sym in right[i]:
+                    if sym in nts and sym not in live:
+                        live.add(sym)
+                        changed = True
+    return sorted(i for i in prods if left[i] in live)
+
+
+# ---------------------------------------------------------------- production-driven sentences (E-PROD over G_impl)
+TERMINAL_TEXT = {'int': '1', 'float': '1.5', 'complex': '2j', 'string': "'s'", 'Indent': 'IND', 'Dedent': 'DED', '"\\n"': 'NL',
+                 'StartModule': None, 'StartInteractive': None, 'StartExpression': None}
+
+
+def _grammar():
+    prods = productions()
+    live = live_productions(prods)
+    left = {i: lhs(prods[i]) for i in live}
+    right = {i: (_split_rhs(prods[i].split(' = ', 1)[1]) if ' = ' in prods[i] else []) for i in live}
+    by_lhs = {}
+    for i in live:
+        by_lhs.setdefault(left[i], []).append(i)
+    return prods, live, left, right, by_lhs
+
+
+_LITERALS = {'string', 'int', 'float', 'complex', '"None"', '"True"', '"False"', '"..."'}
+
+
+def _cost(y):
+    # shortest first; among equally short expansions prefer names to literals (a name is valid as a target, a literal is not)
+    return len(y) * 16 + sum(1 for t in y if t in _LITERALS)
+
+
+def _min_yields(live, left, right, by_lhs):
+    """shortest terminal string of every non-terminal and of every production (fixpoint on length, ties by production index)"""
+    INF = 10 ** 9
+    best = {n: None for n in by_lhs}
+
+    def prod_yield(i):
+        out = []
+        for s in right[i]:
+            if s in by_lhs:
+                if best[s] is None:
+                    return None
+                out.extend(best[s])
+            else:
+                out.append(s)
+        return out
+
+    changed = True
+    while changed:
+        changed = False
+        for i in live:
+            y = prod_yield(i)
+            if y is not None and (best[left[i]] is None or _cost(y) < _cost(best[left[i]])):
+                best[left[i]] = y
+                changed = True
+    return best, prod_yield
+
+
+def sentences(pairs=True):
+    """-> list of (tag, token tuple). One sentence per reachable production (module start symbol, shortest context, shortest expansion of every
+    other symbol) and, with pairs, one per (production, position, child production): every parent/child pair of productions in a minimal context.
+    Tokens are gref.render tokens (NL / IND / DED, names made distinct)."""
+    prods, live, left, right, by_lhs = _grammar()
+    best, prod_yield = _min_yields(live, left, right, by_lhs)
+    # shortest context of every non-terminal from 'Top = StartModule, Program'
+    ctx = {}
+    start = [i for i in live if left[i] == 'Top' and right[i][:1] == ['StartModule']]
+    ctx['Top'] = ([], [])
+    changed = True
+    while changed:
+        changed = False
+        for i in live:
+            if left[i] not in ctx or (left[i] == 'Top' and i not in start):
+                continue
+            pre, post = ctx[left[i]]
+            syms = right[i]
+            for k, s in enumerate(syms):
+                if s not in by_lhs:
+                    continue
+                a, b = [], []
+                ok = True
+                for t in syms[:k]:
+                    y = best[t] if t in by_lhs else [t]
+                    if y is None:
+                        ok = False
+                        break
+                    a.extend(y)
+                for t in syms[k + 1:]:
+                    y = best[t] if t in by_lhs else [t]
+                    if y is None:
+                        ok = False
+                        break
+                    b.extend(y)
+                if not ok:
+                    continue
+                cand = (pre + a, b + post)
+                if s not in ctx or _cost(cand[0] + cand[1]) < _cost(ctx[s][0] + ctx[s][1]):
+                    ctx[s] = cand
+                    changed = True
+    out = []
+
+    def emit(tag, toks):
+        n = 0
+        line = []
+        for t in toks:
+            if t == 'name':
+                line.append('n%d' % n)
+                n += 1
+            elif t in TERMINAL_TEXT:
+                if TERMINAL_TEXT[t] is not None:
+                    line.append(TERMINAL_TEXT[t])
+            elif t.startswith('"') and t.endswith('"'):
+                line.append(t[1:-1])
+            else:
+                raise ValueError('unknown terminal %r' % t)
+        out.append((tag, tuple(line)))
+
+    for i in live:
+        if left[i] not in ctx or left[i].startswith('__'):
+            continue
+        pre, post = ctx[left[i]]
+        y = prod_yield(i)
+        if y is not None:
+            emit('production %d' % i, pre + y + post)
+        if not pairs:
+            continue
+        syms = right[i]
+        for k, s in enumerate(syms):
+            if s not in by_lhs:
+                continue
+            a, b = [], []
+            for t in syms[:k]:
+                a.extend(best[t] if t in by_lhs else [t])
+            for t in syms[k + 1:]:
+                b.extend(best[t] if t in by_lhs else [t])
+            for j in by_lhs[s]:
+                yj = prod_yield(j)
+                if yj is not None:
+                    emit('production %d / %d at %d' % (i, j, k), pre + a + yj + b + post)
+    return out
